@@ -622,6 +622,7 @@ static POOL2: OnceLock<Pool<Fq2>> = OnceLock::new();
 
 pub trait HasPool: crate::adapt::Ops {
     fn pool() -> &'static Pool<Self::F>;
+    fn banded_cache() -> &'static OnceLock<Vec<(Z, Pt<Self::F>, String)>>;
 }
 
 /// G2 points with structured coordinates; (label, point). For each structure both signs of y.
@@ -660,14 +661,22 @@ pub fn g2_special_points() -> Vec<(String, Pt<Fq2>)> {
     }
     out
 }
+static BANDED1: OnceLock<Vec<(Z, Pt<Fq>, String)>> = OnceLock::new();
+static BANDED2: OnceLock<Vec<(Z, Pt<Fq2>, String)>> = OnceLock::new();
 impl HasPool for G1m {
     fn pool() -> &'static Pool<Fq> {
         POOL1.get_or_init(|| build_pool::<G1m>(0x9001))
+    }
+    fn banded_cache() -> &'static OnceLock<Vec<(Z, Pt<Fq>, String)>> {
+        &BANDED1
     }
 }
 impl HasPool for G2m {
     fn pool() -> &'static Pool<Fq2> {
         POOL2.get_or_init(|| build_pool::<G2m>(0x9002))
+    }
+    fn banded_cache() -> &'static OnceLock<Vec<(Z, Pt<Fq2>, String)>> {
+        &BANDED2
     }
 }
 
@@ -697,6 +706,39 @@ pub enum PointR {
     /// patterns ...; such points are almost never in the subgroup, so they exercise the unchecked decoders,
     /// the encoders and the group law.)
     XStructured(FeR, FeR, bool),
+    /// a SUBGROUP point [k]G with a coordinate in a numerically special band (leading 32 / 16 bits equal to those of
+    /// the modulus, 32 / 24 leading zero bits), from the list found by search (corpus/banded-points.json); index
+    Banded(u16),
+}
+
+/// (k, coordinate, band) per group, from corpus/banded-points.json
+pub fn banded_list(g2: bool) -> &'static Vec<(Z, String)> {
+    static L1: OnceLock<Vec<(Z, String)>> = OnceLock::new();
+    static L2: OnceLock<Vec<(Z, String)>> = OnceLock::new();
+    let load = move || -> Vec<(Z, String)> {
+        let path = crate::props::corpus_dir("").join("banded-points.json");
+        let mut out = vec![];
+        if let Ok(text) = std::fs::read_to_string(&path) {
+            if let Ok(serde_json::Value::Array(a)) = serde_json::from_str::<serde_json::Value>(&text) {
+                for e in a {
+                    if (e["group"].as_str() == Some("G2")) == g2 {
+                        if let Some(k) = e["k"].as_str() {
+                            out.push((refmodel::fld::zhex(k), format!("{}:{}", e["coord"].as_str().unwrap_or("?"), e["band"].as_str().unwrap_or("?"))));
+                        }
+                    }
+                }
+            }
+        }
+        out
+    };
+    if g2 { L2.get_or_init(load) } else { L1.get_or_init(load) }
+}
+
+fn banded_points<G: HasPool>() -> &'static Vec<(Z, Pt<G::F>, String)> {
+    G::banded_cache().get_or_init(|| {
+        let c = G::curve();
+        banded_list(G::NAME == "G2").iter().map(|(k, label)| (k.clone(), c.mul(k, &G::gen()), label.clone())).collect()
+    })
 }
 
 impl PointR {
@@ -726,6 +768,14 @@ impl PointR {
                     pool.full[*i as usize % POOL_FULL].clone()
                 } else {
                     pool.special[*i as usize % pool.special.len()].1.clone()
+                }
+            }
+            PointR::Banded(i) => {
+                let v = banded_points::<G>();
+                if v.is_empty() {
+                    G::gen()
+                } else {
+                    v[(*i as usize * v.len()) >> 16].1.clone()
                 }
             }
             PointR::XStructured(c0, c1, neg) => {
@@ -758,7 +808,7 @@ impl PointR {
     /// does the recipe denote a point of the order-r subgroup (by construction)?
     pub fn in_subgroup(&self) -> bool {
         match self {
-            PointR::Identity | PointR::Gen | PointR::SmallMult(_) | PointR::Sub(_) => true,
+            PointR::Identity | PointR::Gen | PointR::SmallMult(_) | PointR::Sub(_) | PointR::Banded(_) => true,
             PointR::Full(_) | PointR::SmallOrder(_, _) | PointR::Mixed(_, _, _) | PointR::Special(_) | PointR::XStructured(_, _, _) => false,
             PointR::Neg(i) => i.in_subgroup(),
             // x -> beta x is the GLV endomorphism on E(Fq) and on E'(Fq2): it preserves the subgroup
@@ -777,6 +827,7 @@ impl PointR {
             PointR::Beta(_, _) => "pt-same-y",
             PointR::Special(_) => "pt-structured-coordinate",
             PointR::XStructured(_, _, _) => "pt-structured-x",
+            PointR::Banded(_) => "pt-subgroup-with-banded-coordinate",
         }
     }
 }
@@ -805,6 +856,7 @@ fn point_leaf(any_curve_point: bool) -> BoxedStrategy<PointR> {
             2 => (0u8..5, 0u8..POOL_SMALL_PER_PRIME as u8, 0u8..POOL_SUB as u8).prop_map(|(p, i, s)| PointR::Mixed(p, i, s)),
             2 => (0u8..16).prop_map(PointR::Special),
             4 => (x_structured_fe(), prop_oneof![2 => Just(FeR::Zero), 2 => x_structured_fe(), 1 => fq_uniformish()], any::<bool>()).prop_map(|(a, b, n)| PointR::XStructured(a, b, n)),
+            3 => any::<u16>().prop_map(PointR::Banded),
         ]
         .boxed()
     } else {
@@ -813,6 +865,7 @@ fn point_leaf(any_curve_point: bool) -> BoxedStrategy<PointR> {
             1 => Just(PointR::Gen),
             5 => (0u8..=SMALL_MULT_MAX as u8).prop_map(PointR::SmallMult),
             6 => (0u8..POOL_SUB as u8).prop_map(PointR::Sub),
+            3 => any::<u16>().prop_map(PointR::Banded),
         ]
         .boxed()
     }
@@ -1033,4 +1086,109 @@ pub fn heff_of<G: Grp>() -> Z {
     } else {
         C().heff2.clone()
     }
+}
+
+
+// ---------------------------------------------------------------------------------------------
+// subgroup points with a coordinate in a numerically special band (found by search, kept in corpus/banded-points.json)
+// ---------------------------------------------------------------------------------------------
+
+/// bands of a coordinate component v (canonical integer below q), judged on the top limb l5 of its six limbs:
+/// "top32=q": the leading 32 bits of the 384-bit big-endian field equal those of q (v >= 0x1a0111ea * 2^352);
+/// "top16=q": the leading 16 bits do; "top32=0" / "top24=0": that many leading zero bits
+pub fn band_of(l5: u64) -> Option<&'static str> {
+    const Q5: u64 = 0x1a0111ea397fe69a;
+    if l5 >> 32 == Q5 >> 32 {
+        Some("top32=q")
+    } else if l5 >> 32 == 0 {
+        Some("top32=0")
+    } else if l5 >> 40 == 0 {
+        Some("top24=0")
+    } else if l5 >> 48 == Q5 >> 48 {
+        Some("top16=q")
+    } else {
+        None
+    }
+}
+
+pub fn find_banded(g2: bool, trials: u64, threads: u64) {
+    use ff_zeroize::PrimeField;
+    use pairing_plus::bls12_381 as crt;
+    use pairing_plus::{CurveAffine, CurveProjective};
+    std::thread::scope(|sc| {
+        for t in 0..threads {
+            sc.spawn(move || {
+                let start: u64 = 0x1000_0000_0000 * (t + 1) + 12345;
+                let mut seen = std::collections::BTreeMap::<String, u32>::new();
+                let report = |k: u64, coord: &str, band: &str, seen: &mut std::collections::BTreeMap<String, u32>| {
+                    let key = format!("{}:{}", coord, band);
+                    let c = seen.entry(key).or_insert(0);
+                    if *c < 3 || band == "top32=q" || band == "top32=0" {
+                        println!("{{\"group\": \"{}\", \"k\": \"{:x}\", \"coord\": \"{}\", \"band\": \"{}\"}}", if g2 { "G2" } else { "G1" }, k, coord, band);
+                    }
+                    *c += 1;
+                };
+                let chunk = 4096usize;
+                if !g2 {
+                    let g = crt::G1Affine::one();
+                    let mut p = g.mul(crt::FrRepr([start, 0, 0, 0]));
+                    let mut k = start;
+                    let mut done = 0u64;
+                    while done < trials {
+                        let mut v = Vec::with_capacity(chunk);
+                        for _ in 0..chunk {
+                            v.push(p);
+                            p.add_assign_mixed(&g);
+                        }
+                        crt::G1::batch_normalization(&mut v);
+                        for (i, q) in v.iter().enumerate() {
+                            let a = q.into_affine();
+                            let (x, y) = a.as_tuple();
+                            if let Some(b) = band_of(x.into_repr().0[5]) {
+                                report(k + i as u64, "x", b, &mut seen);
+                            }
+                            if let Some(b) = band_of(y.into_repr().0[5]) {
+                                if b == "top32=q" || b == "top32=0" {
+                                    report(k + i as u64, "y", b, &mut seen);
+                                }
+                            }
+                        }
+                        k += chunk as u64;
+                        done += chunk as u64;
+                    }
+                } else {
+                    let g = crt::G2Affine::one();
+                    let mut p = g.mul(crt::FrRepr([start, 0, 0, 0]));
+                    let mut k = start;
+                    let mut done = 0u64;
+                    while done < trials {
+                        let mut v = Vec::with_capacity(chunk);
+                        for _ in 0..chunk {
+                            v.push(p);
+                            p.add_assign_mixed(&g);
+                        }
+                        crt::G2::batch_normalization(&mut v);
+                        for (i, q) in v.iter().enumerate() {
+                            let a = q.into_affine();
+                            let (x, y) = a.as_tuple();
+                            for (name, c) in [("x.c0", &x.c0), ("x.c1", &x.c1)] {
+                                if let Some(b) = band_of(c.into_repr().0[5]) {
+                                    report(k + i as u64, name, b, &mut seen);
+                                }
+                            }
+                            for (name, c) in [("y.c0", &y.c0), ("y.c1", &y.c1)] {
+                                if let Some(b) = band_of(c.into_repr().0[5]) {
+                                    if b == "top32=q" || b == "top32=0" {
+                                        report(k + i as u64, name, b, &mut seen);
+                                    }
+                                }
+                            }
+                        }
+                        k += chunk as u64;
+                        done += chunk as u64;
+                    }
+                }
+            });
+        }
+    });
 }
